@@ -653,6 +653,9 @@ func (c *Client) Request(ctx context.Context, payload kmip.OperationPayload) (km
 	if err := bi.Err(); err != nil {
 		return nil, err
 	}
+	if bi.ResponsePayload == nil {
+		return nil, errors.New("Missing response payload")
+	}
 	return bi.ResponsePayload, nil
 }
 
@@ -698,6 +701,16 @@ func (c *Client) BatchOpt(ctx context.Context, payloads []kmip.OperationPayload,
 	// Check batch item count
 	if int(resp.Header.BatchCount) != len(resp.BatchItem) || len(resp.BatchItem) != len(payloads) {
 		return nil, errors.New("Batch count mismatch")
+	}
+	// A successful item never carries the payload of another operation than the requested one
+	for i := range resp.BatchItem {
+		bi := &resp.BatchItem[i]
+		if bi.ResultStatus != kmip.ResultStatusSuccess || bi.ResponsePayload == nil {
+			continue
+		}
+		if got, want := bi.ResponsePayload.Operation(), payloads[i].Operation(); got != want {
+			return nil, fmt.Errorf("Unexpected response payload for batch item %d. Got %s but expected %s", i, ttlv.EnumStr(got), ttlv.EnumStr(want))
+		}
 	}
 	return resp.BatchItem, nil
 }
